@@ -48,11 +48,18 @@ CLAIMED = {
              "step budget, no duplicates for closures. One recorded finding (negated sets with inverse members) is re-checked against an "
              "oracle modelling exactly that defect so that other violations at the same site are still reported.",
         ref="DESIGN.md section 3 C11"),
+    "C04": dict(
+        technique="symbolic execution of rdflib's SPARQL evaluator (CrossHair + z3) on symbolic data against a bottom-up algebra reference",
+        text="Bounded symbolic model checking of evalQuery and the evaluators it dispatches to: a generated catalogue of query templates "
+             "(57 single-operator, 8 GRAPH, 408 depth-2 nestings; every variable-sharing pattern) is parsed and translated by rdflib "
+             "itself, then evaluated over n=2..3 symbolic triples with symbolic query constants; the solution multiset (SELECT), the ASK "
+             "boolean and the CONSTRUCT graph are compared with a reference evaluator written from SPARQL 1.1 section 18. Three recorded "
+             "scope deviations of rdflib's top-down evaluation are known findings keyed by a syntactic class of the query.",
+        ref="DESIGN.md section 3 C04"),
 }
 
 NA = {
     "C03": "check not built yet in this commit (planned: engine K term-text kernels)",
-    "C04": "check not built yet in this commit (planned: engine S)",
     "C05": "check not built yet in this commit (planned: engines R + K)",
     "C06": "document-level quad round trips run json/expat/regex scanners over text built from term contents; contents cannot be symbolic (C-level str.__new__), leaving only membership booleans = enumeration, not solver-based checking",
     "C07": "check not built yet in this commit (planned: engines K + R, n3 text forms only)",
